@@ -2,7 +2,7 @@ import GT.Base.JsonQ
 import GT.Base.QSqrt
 import GT.Model.Reflect
 import GT.Driver.C13
-open Lean GT.J GT Matrix
+open Lean GT.J GT GT.Reflect Matrix
 namespace GT.Driver.C15
 open GT.Driver.C13 (V S S_toFn withVec)
 
